@@ -20,6 +20,7 @@ type Violation struct {
 	Expected string `json:"expected"`
 	Actual   string `json:"actual"`
 	Finding  string `json:"finding,omitempty"` // id of the known finding whose class contains it
+	Key      string `json:"key,omitempty"`
 }
 
 // Disagreement is one case on which the model and the implementation differ.
@@ -84,6 +85,21 @@ func (r *Result) violate(v Violation) {
 			n++
 		}
 	}
+	if n < 3 {
+		r.Violations = append(r.Violations, v)
+	}
+}
+
+// violateKey: like violate, but the cap of three applies per (eco, kind, key)
+func (r *Result) violateKey(v Violation, key string) {
+	v.Property = r.Property
+	n := 0
+	for _, o := range r.Violations {
+		if o.Eco == v.Eco && o.Kind == v.Kind && o.Key == key {
+			n++
+		}
+	}
+	v.Key = key
 	if n < 3 {
 		r.Violations = append(r.Violations, v)
 	}
